@@ -97,7 +97,7 @@ def r1_aligned_pointer(ctx):
         ok = v[0] == 'field' and v[2] == j_start and any(x[0] == 'call' and x[1] == IN + '::find_region' for x in walk(v))
         fr_call = [x for x in walk(v) if x[0] == 'call' and x[1] == IN + '::find_region']
         args_ok = False
-        if fr_call:
+        if fr_call and len(fr_call[0][2]) >= 3:
             sz, al = simp(fr_call[0][2][1]), simp(fr_call[0][2][2])
             args_ok = sz[0] == 'field' and sz[2] == '0' and al[0] == 'field' and al[2] == '1' and \
                 all(any(x[0] == 'call' and x[1] == IN + '::size_align' for x in walk(q)) for q in (sz, al))
@@ -110,7 +110,7 @@ def r1_aligned_pointer(ctx):
             continue
         r = path_ret_resolved(ff, path)
         if r and r[0] == 'call' and r[1] == IN + '::find_region':
-            a1, a2 = peel(r[2][1]), peel(r[2][2])
+            a1, a2 = (peel(r[2][1]), peel(r[2][2])) if len(r[2]) >= 3 else (('unknown',), ('unknown',))
             ctx.check(a1[0] == 'arg' and a2[0] == 'arg' and a1[2] == 'size' and a2[2] == 'align', 'find_region-retry', 'after adding a page find_region retries with the same size and alignment', ff.where_path(path))
             continue
         some = [x for x in walk(r)] if r else []
@@ -122,7 +122,7 @@ def r1_aligned_pointer(ctx):
         j_start = next((i for i, r_ in roles.items() if r_ == 'start'), 1)
         b = simp(tup[0][2][j_start])
         call = [x for x in walk(b) if x[0] == 'call' and x[1] == IN + '::alloc_from_region']
-        ok = b[0] == 'field' and bool(call) and peel(call[0][2][1])[0] == 'arg' and peel(call[0][2][1])[2] == 'size' and peel(call[0][2][2])[2] == 'align'
+        ok = b[0] == 'field' and bool(call) and len(call[0][2]) >= 3 and peel(call[0][2][1])[0] == 'arg' and peel(call[0][2][1])[2] == 'size' and peel(call[0][2][2])[2] == 'align'
         ctx.check(ok, 'find_region-start-from-fit', "find_region hands out the start address computed by alloc_from_region for the region it removes", ff.where_path(path), show(b)[:200])
     ctx.floor('Some paths of find_region', n, 1)
     # (c) alloc_from_region: every success case hands out align_up(region start, align)
